@@ -122,17 +122,18 @@ def _ident(item):
     return base
 
 
-def model_step(table, seen, item):
+def model_step(table, seen, item, node_id=None):
+    node_id = node_id or NODE
     ''' Reference receive policy.  :return: (decision, reason) '''
     ident = _ident(item)
     if item.get('corrupt'):
         return 'ignore', 'crc-failure'
-    if item['src'] == NODE:
+    if item['src'] == node_id:
         return 'ignore', 'own-source'
     if ident in seen:
         return 'ignore', 'repeat'
     seen.add(ident)
-    if item['dest'] == NODE:
+    if item['dest'] == node_id:
         return 'deliver', 'admin-endpoint'
     for (pattern, action) in table:
         if re.fullmatch(pattern, item['dest']):
@@ -140,11 +141,12 @@ def model_step(table, seen, item):
     return 'none', 'no-route'
 
 
-def run_history(table, hist, obs):
+def run_history(table, hist, obs, node_id=None, via_file=False):
+    node_id = node_id or NODE
     from vf.world.sim import Sim
     from vf import bp_harness as bh
     sim = Sim(0, 'eager')
-    node = bh.BpNode(sim, NODE, rx_routes=table, tx_routes=[dict(pattern=r'.*')])
+    node = bh.BpNode(sim, node_id, rx_routes=table, tx_routes=[dict(pattern=r'.*')], via_file=via_file)
     seen_model = set()
     violations = []
     kinds = set()
@@ -160,7 +162,7 @@ def run_history(table, hist, obs):
             assert bpv7.crc_failures(enc), 'harness: the damaged copy has no CRC failure'
             obs['damaged_copies'] = obs.get('damaged_copies', 0) + 1
         n_obs, n_cl = len(node.observed), len(node.cl.sent)
-        decision, reason = model_step(table, seen_model, item)
+        decision, reason = model_step(table, seen_model, item, node_id)
         err = node.recv(enc)
         res = sim.settle(5000)
         obs['receives'] += 1
@@ -209,6 +211,17 @@ def run_history(table, hist, obs):
             problems.append('forwarded %s, model says %s' % (forwards, want_fwd))
         if decision == 'ignore' and reports:
             problems.append('%d status report(s) emitted for an ignored bundle' % len(reports))
+        if decision == 'delete' and item['flags'] & bpv7.FLAG_REQ_DELETION and item['report_to'] != 'dtn:none':
+            # the delete action was taken (whole bundle or fragment alike): its requested report says so
+            obs['delete_reports_expected'] = obs.get('delete_reports_expected', 0) + 1
+            deleted = []
+            for rep in reports:
+                try:
+                    deleted.append(bpv7.decode_admin_record(bpv7.payload_of(rep)['data'])['status'][3][0])
+                except (bpv7.DecodeError, KeyError, IndexError):
+                    pass
+            if deleted != [True]:
+                problems.append('route says delete and a deletion report was requested, but %d report(s) asserting deletion %s were sent' % (len(reports), deleted))
         for rep in reports:
             try:
                 rec = bpv7.decode_admin_record(bpv7.payload_of(rep)['data'])
@@ -310,6 +323,23 @@ def run_case(case):
             classes.add(hash((repr(table), repr(hist))) & 0xFFFFFFFFFFFF)
         if sample is None:
             sample = dict(table=table, history=[dict(item) for item in hist[:6]])
+    if case.get('long') or True:
+        # a node configured from a document (Config.from_file), with an ipn node id: own-source and own-endpoint rules as before
+        ipn_node = 'ipn:9.0'
+        table = _gen_table(rng)
+        hist = []
+        for item in _gen_history(rng, 12):
+            item = dict(item)
+            if item['src'] == NODE:
+                item['src'] = ipn_node
+            if item['dest'] == NODE:
+                item['dest'] = ipn_node
+            hist.append(item)
+        hist.insert(3, dict(hist[0], src=ipn_node, tag='new', seq=9, time=77))
+        hist.insert(5, dict(hist[1], dest=ipn_node, tag='new', seq=8, time=78, frag=None))
+        viols, _kinds = run_history(table, hist, obs, node_id=ipn_node, via_file=True)
+        violations += viols
+        obs['from_file_histories'] = obs.get('from_file_histories', 0) + 1
     if case.get('long'):
         table = _gen_table(rng)
         hist = _long_history(rng)
